@@ -195,7 +195,7 @@ def family(tier, seed):
         # limb and are congruent to zero, selected (c = 0) and not selected (c = 1)
         a, b = r(), r()
         zz = (-(a + b)) % m
-        if not (tier == "quick" and FIELDS[f].get("nb_limbs", 0) > 4 or (tier == "quick" and f == "blsfp")):   # 7-limb field: > 60 s, thorough only
+        if f != "blsfp":   # 7-limb field: the is_zero consumer does not finish (quick > 60 s, thorough > 600 s measured); add_select_pi covers blsfp
           E.append(entry(f, "add_select_is_zero", S_add_select_is_zero, [0, a, b, zz, r()],
                        alt=[[0, m - 1, m - 1, 2, 5], [1, a, b, zz, 0], [1, a, b, zz, 7], [0, a, b, (zz + 1) % m, 0], [0, m - 1, m - 1, m - 1, 0]]))
         E.append(entry(f, "add_select_pi", S_add_select_pi, [0, a, b, r(), r()], alt=[[0, m - 1, m - 1, m - 1, 1], [1, a, b, zz, m - 1], [0, a, b, zz, 3]]))
@@ -211,7 +211,7 @@ def check(run):
         "foreign-field gate groups are decided by the chain A (aux polynomials vanish over Z), B (CRT reconstruction of the common integer expression), C (magnitude bound), D (CRT lemma), E (lifting to true powers of the base): every link is a solver query or a ground arithmetic fact; the composition of the links is the standard CRT argument and is performed by the checker",
         "products of two range-checked limbs are exact integers (bounds established from the system's own range checks) and are shared opaque atoms between gates and specification",
     ]
-    run.outside += ["completeness beyond the concrete honest runs", "BigUint gadgets, mod_exp, bit/byte conversions of emulated elements: part C05_B", "bn256 parameter sets (dev-curves feature)"]
+    run.outside += ["add_select_is_zero for the 7-limb BLS12-381 base field (> 600 s on both solvers)", "completeness beyond the concrete honest runs", "BigUint gadgets, mod_exp, bit/byte conversions of emulated elements: part C05_B", "bn256 parameter sets (dev-curves feature)"]
     run.bounds += [f"tier={t}: {len(ents)} (field, operation) shapes; emulated fields {sorted(set(e['params']['field'] for e in ents))} over the BLS12-381 scalar field; k=11"]
     run.notes.append("Engine C + chained foreign-field obligations: Sys => val(out) == f(val(in)) (mod m) for all limb representations within the chip's bounds.")
     cengine.run_family(run, "foreign", ents, timeout=60 if t == "quick" else 600, only=getattr(run, "only", None), workers=6)
